@@ -76,6 +76,16 @@ type Ctx struct {
 	explain             string
 	fixFired, fixSilent int
 	ruleDocs            map[string]string
+	alias               map[string]string // while set: rule ids are renamed through it, obligations of other rules are dropped
+}
+
+// WithAlias runs f with rule ids renamed through m: an analysis written for one property is re-used under another
+// property's rule ids (the structural condition is necessary for both). Obligations of rules not in m are dropped.
+func (c *Ctx) WithAlias(m map[string]string, f func()) {
+	old := c.alias
+	c.alias = m
+	defer func() { c.alias = old }()
+	f()
 }
 
 // NewCtx creates a context.
@@ -131,6 +141,13 @@ func (c *Ctx) Floor(rule string, n int) {
 }
 
 func (c *Ctx) add(rule, key, pos string, st Status, trivial bool, msg string) {
+	if c.alias != nil {
+		nr, ok := c.alias[rule]
+		if !ok {
+			return
+		}
+		rule = nr
+	}
 	full := rule + "|" + key
 	tgt := ""
 	if c.cur != nil {
